@@ -1,4 +1,4 @@
 (* C04 - the lemmas exported to Props.v *)
 From Coq Require Import ZArith Bool String.
 From Coq Require Import List.
-Require Export MV.C04.Gen MV.C04.Model MV.C04.Geo MV.C04.Stl MV.C04.Ref MV.C04.Proofs_Text MV.C04.Proofs_Ref MV.C04.Proofs_Geo MV.C04.Proofs_Stl MV.C04.Run MV.C04.Proofs_Class.
+Require Export MV.C04.Gen MV.C04.Model MV.C04.Geo MV.C04.Stl MV.C04.Ref MV.C04.Proofs_Text MV.C04.Proofs_Ref MV.C04.Proofs_Geo MV.C04.Proofs_Stl MV.C04.GeoRef MV.C04.Proofs_GeoRef MV.C04.Run MV.C04.Proofs_Class.
